@@ -43,6 +43,9 @@ def _unit(bounded, capn=6, capm=16):
     text = X.src(rel)
     body = X.body_after(text, r"const CandidateCycle<Graph, WeightMap> &c, const std::set<Edge> &signed_edges, bool use_weight_limit,\s*WeightType weight_limit\) const\s*",
                         "CandidateCycleBuilder::operator()")
+    body = X.inline_temps(X.drop_local_const(body, log), log)
+    body = X.canon(body, [(r"Vertex (\w+) = boost::source\(c\.edge\(\), g\);", ["w"]),
+                          (r"std::shared_ptr<SPNode<Graph, WeightMap>> (\w+) = trees\[c\.tree\(\)\]\.node\(w\);", ["ws"])], log)
     body = X.rewrite(body, [
         (r"std::shared_ptr<SPNode<Graph, WeightMap>> (v|u) = trees\[c\.tree\(\)\]\.node\(boost::(source|target)\(c\.edge\(\), g\)\);",
          lambda m: "size_t %s = %s[vp_e];" % (m.group(1), "SRC" if m.group(2) == "source" else "TGT"), 2, "container-api", "node of an endpoint (exists: K14a) = its vertex id"),
@@ -62,6 +65,7 @@ def _unit(bounded, capn=6, capm=16):
         (r"ws->has_pred\(\)", "HASPRED[ws]", 2, "container-api", ""),
         (r"Edge a = ws->pred\(\);", "size_t a = PRED[ws];", 2, "container-api", ""),
         (r"result\.insert\(a\)\.second == false", "!vp_insert(&result, a)", (0, 2), "container-api", "insert reports an element that was already there"),
+        (r"!result\.insert\(a\)\.second", "!vp_insert(&result, a)", (0, 2), "container-api", "same, spelled with !"),
         (r"result\.insert\(a\);", "(void) vp_insert(&result, a);", (0, 2), "container-api", "insert whose report is ignored"),
         (r"w = boost::opposite\(a, w, g\);", "w = OPP(a, w);", 2, "container-api", "other endpoint"),
     ], log)
